@@ -20,6 +20,8 @@ def lab_files():
     svc = G.add_service(fd, "Lab")
     G.add_method(svc, "ListThings", ".acme.lab.v1.ListReq", ".acme.lab.v1.ListResp", http=("get", "/v1/{parent=p/*}/things"))
     G.add_method(svc, "ListMap", ".acme.lab.v1.ListReq", ".acme.lab.v1.MapResp", http=("get", "/v1/{parent=p/*}/map"))
+    # a paginated rpc whose request and response are plain protobuf types of another package
+    G.add_method(svc, "ListOps", ".google.longrunning.ListOperationsRequest", ".google.longrunning.ListOperationsResponse", http=("get", "/v1/{name=ops}"))
     return [fd]
 
 
@@ -86,9 +88,28 @@ def pager_scenarios():
                         failures.append({"case": label, "what": "pager attribute is not the most recent page's", "got": seen_sizes, "want": exp})
                 if req.page_token != "":
                     failures.append({"case": label, "what": "caller's request mutated"})
+        # the plain-protobuf paginated rpc: pages are followed, the caller's request message is left alone
+        from google.longrunning import operations_pb2
+        pages = [(["o1", "o2"], "t1"), (["o3"], "")]
+        calls = []
+
+        def ohandler(kind, path, raw, md, deser, timeout):
+            calls.append(operations_pb2.ListOperationsRequest.FromString(raw))
+            names, tok = pages[len(calls) - 1]
+            return deser(operations_pb2.ListOperationsResponse(operations=[operations_pb2.Operation(name=n) for n in names], next_page_token=tok).SerializeToString())
+        client = lab_v1.LabClient(transport=LabGrpcTransport(channel=G.fake_channel(ohandler), credentials=AnonymousCredentials()))
+        oreq = operations_pb2.ListOperationsRequest(name="ops", filter="f", page_size=3)
+        try:
+            got = [o.name for o in client.list_ops(request=oreq)]
+            if got != ["o1", "o2", "o3"] or [c.page_token for c in calls] != ["", "t1"] or any((c.name, c.filter, c.page_size) != ("ops", "f", 3) for c in calls):
+                failures.append({"case": "sync list_ops (plain protobuf request)", "what": "items / tokens / other request fields", "got": got, "calls": [str(c) for c in calls]})
+            if oreq.page_token != "":
+                failures.append({"case": "sync list_ops (plain protobuf request)", "what": "caller's request mutated"})
+        except Exception as e:      # noqa
+            failures.append({"case": "sync list_ops (plain protobuf request)", "what": "the paginated call raised", "error": repr(e)[:200]})
     return failures
 
 
 def pager_scenarios_wrapped():
     f = pager_scenarios()
-    return {"cases": len(HISTORIES) * 2, "failures": f}
+    return {"cases": len(HISTORIES) * 2 + 1, "failures": f}
